@@ -206,10 +206,12 @@ x_cas(t) == /\ pc[t] = "x_cas"
             /\ LET x == loc[t].prev exp == Lnk(g[t].cur.n, 0) IN
                IF Latest(x) = exp
                  THEN /\ Rmw(t, x, Lnk(loc[t].node, 0), Ord["x_cas"]) /\ Acc(t, "cas", "x_cas", exp, 1)
-                      /\ Return(t, 1, 0) /\ g' = [g EXCEPT ![t] = G0]
+                      /\ Return(t, 1, 0) /\ g' = [g EXCEPT ![t] = G0] /\ UNCHANGED loc
                  ELSE /\ CasFail(t, x, Ord["casf"]) /\ Acc(t, "cas", "x_cas", Latest(x), 0)
-                      /\ Goto(t, "f_start") /\ UNCHANGED <<lin, g>>           \* find again (from info.prev = start)
-            /\ UNCHANGED <<loc, budget, nst, inc, keyof>>
+                      \* find again: a new call of find() starts at the position reached (start = info.prev, start_guard = info.save)
+                      /\ loc' = [loc EXCEPT ![t].start = loc[t].prev] /\ g' = [g EXCEPT ![t].sg = g[t].save]
+                      /\ Goto(t, "f_start") /\ UNCHANGED lin
+            /\ UNCHANGED <<budget, nst, inc, keyof>>
 
 \* ---- erase(key): mark, then unlink or re-walk ---------------------------------------------------------
 e_mark(t) == /\ pc[t] = "e_mark"
@@ -217,10 +219,11 @@ e_mark(t) == /\ pc[t] = "e_mark"
              /\ LET x == NEXT(g[t].cur.n) IN
                 IF Latest(x) = loc[t].next
                   THEN /\ Rmw(t, x, Lnk(Ptr(loc[t].next), 1), Ord["e_mark"]) /\ Acc(t, "cas", "e_mark", loc[t].next, 1)
-                       /\ Goto(t, "e_unlink")
+                       /\ Goto(t, "e_unlink") /\ UNCHANGED <<loc, g>>
                   ELSE /\ CasFail(t, x, Ord["casf"]) /\ Acc(t, "cas", "e_mark", Latest(x), 0)
+                       /\ loc' = [loc EXCEPT ![t].start = loc[t].prev] /\ g' = [g EXCEPT ![t].sg = g[t].save]
                        /\ Goto(t, "f_start")
-             /\ UNCHANGED <<loc, lin, budget, nst, inc, keyof, g>>
+             /\ UNCHANGED <<lin, budget, nst, inc, keyof>>
 e_unlink(t) == /\ pc[t] = "e_unlink"
                /\ TouchCell(t, loc[t].prev, "erase CASes a link of a destroyed node")
                /\ LET x == loc[t].prev exp == Lnk(g[t].cur.n, 0) IN
@@ -230,8 +233,8 @@ e_unlink(t) == /\ pc[t] = "e_unlink"
                          /\ g' = [g EXCEPT ![t] = G0]
                          /\ Return(t, 1, 0) /\ UNCHANGED loc
                     ELSE /\ CasFail(t, x, Ord["casf"]) /\ Acc(t, "cas", "e_unlink", Latest(x), 0)
-                         /\ loc' = [loc EXCEPT ![t].op = "erase2"]
-                         /\ Goto(t, "f_start") /\ UNCHANGED <<lin, nst, g>>
+                         /\ loc' = [loc EXCEPT ![t].op = "erase2", ![t].start = loc[t].prev] /\ g' = [g EXCEPT ![t].sg = g[t].save]
+                         /\ Goto(t, "f_start") /\ UNCHANGED <<lin, nst>>
                /\ UNCHANGED <<budget, inc, keyof>>
 
 \* ---- iterator: begin / * / ++ (one traversal is a sequence of operations of the abstract spec) -------
